@@ -49,7 +49,7 @@ def r1(ctx):
         ctx.require_guards(body, b.idx, reqs, "match_operate:Ok", "`Ok(())` return of match_operate")
     # every other return is an Err
     for b, si, st, e in ret_sites(body, sym):
-        if not is_agg(e, r"result::Result$"):
+        if not is_agg(e, r"result::Result$") and not (e[0] == "call" and (e[1] or "").endswith("from_residual")):
             ctx.bad("match_operate:ret-shape", "return value is not a Result aggregate: %s" % expr_str(e), body.where(b.idx))
 
 
